@@ -981,6 +981,13 @@ class _ExecutorManagerThread(threading.Thread):
         # the Executor as broken during the shutdown. This is safe as either:
         #  * We don't need to communicate with the workers anymore
         #  * There is nothing left in the Queue buffer except None sentinels
+        if self.executor_flags.broken or self.executor_flags.kill_workers:
+            # The workers have been killed: nobody will read the call queue
+            # anymore. Close the reading end of its pipe so that the queue
+            # feeder thread, possibly blocked writing a large item to a full
+            # pipe, gets EPIPE and exits instead of blocking forever.
+            self.call_queue._reader.close()
+
         mp.util.debug("closing call_queue")
         self.call_queue.close()
         self.call_queue.join_thread()
